@@ -207,6 +207,8 @@ def run(ctx):
     for b in bad:
         pbs.append({"fam": "pb", "ops": [{"op": "add", "tree": zero}, {"op": "add", "tree": b}, {"op": "add", "tree": {"t": "One"}},
                                          {"op": "add", "tree": b}, {"op": "push", "d": [7], "via": "byte"}, {"op": "add", "tree": zero}]})
+    pbs.append({"fam": "pb", "ops": [{"op": "add", "tree": zero}] * 258 + [{"op": "push", "d": [1], "via": "byte"}, {"op": "add", "tree": zero}]})
+    pbs.append({"fam": "pb", "ops": [{"op": "add", "tree": {"t": "Int", "ty": "u16", "v": [1, 2]}}] * 255 + [{"op": "add", "tree": {"t": "Str", "s": [65], "owned": True}}] * 3})
     for profile in ("release", "checked"):
         vlib.run_and_judge(ctx, pbs, "Trace_Pb.cfg", "Trace_Pb.tla", "c18pb-" + profile, profile=profile, chunks=2)
     ctx.extra["builds"] = ["release (no overflow checks)", "checked (debug-assertions + overflow-checks)"]
